@@ -20,8 +20,8 @@ type (
 )
 
 var (
-	vkAll    = []int{ik.ClsFinite, ik.ClsExtreme, ik.ClsSpecial}
-	vkNoSpec = []int{ik.ClsFinite, ik.ClsExtreme}
+	vkAll = []int{ik.ClsFinite, ik.ClsExtreme, ik.ClsSpecial}
+	vkRed = []int{ik.ClsFinite, ik.ClsExtreme, ik.ClsSpecial, ik.ClsInf}
 )
 
 func vkRet(v float32) complex128 { return complex(float64(v), 0) }
@@ -41,16 +41,16 @@ var vkOps = []*vkOp{
 		Call: func(a *vkArgs) {
 			AxpyIncTo(a.Dst, a.IncD, a.ID, a.Alpha, a.X, a.Y, a.N, a.IncX, a.IncY, a.IX, a.IY)
 		}},
-	{Name: "DotUnitary", Family: "Dot", Classes: vkNoSpec, Red: ik.RedDot,
+	{Name: "DotUnitary", Family: "Dot", Classes: vkRed, Red: ik.RedDot,
 		Shape: ik.Shape{HasX: true, HasY: true},
 		Call:  func(a *vkArgs) { a.Ret = vkRet(DotUnitary(a.X, a.Y)) }},
-	{Name: "DotInc", Family: "Dot", Classes: vkNoSpec, Red: ik.RedDot,
+	{Name: "DotInc", Family: "Dot", Classes: vkRed, Red: ik.RedDot,
 		Shape: ik.Shape{HasX: true, HasY: true, Inc: true, Idx: true, NegInc: true},
 		Call:  func(a *vkArgs) { a.Ret = vkRet(DotInc(a.X, a.Y, a.N, a.IncX, a.IncY, a.IX, a.IY)) }},
-	{Name: "DdotUnitary", Family: "Dot", Classes: vkNoSpec, Red: ik.RedDot, Acc64: true,
+	{Name: "DdotUnitary", Family: "Dot", Classes: vkRed, Red: ik.RedDot, Acc64: true,
 		Shape: ik.Shape{HasX: true, HasY: true},
 		Call:  func(a *vkArgs) { a.Ret = complex(DdotUnitary(a.X, a.Y), 0) }},
-	{Name: "DdotInc", Family: "Dot", Classes: vkNoSpec, Red: ik.RedDot, Acc64: true,
+	{Name: "DdotInc", Family: "Dot", Classes: vkRed, Red: ik.RedDot, Acc64: true,
 		Shape: ik.Shape{HasX: true, HasY: true, Inc: true, Idx: true, NegInc: true},
 		Call:  func(a *vkArgs) { a.Ret = complex(DdotInc(a.X, a.Y, a.N, a.IncX, a.IncY, a.IX, a.IY), 0) }},
 	{Name: "ScalUnitary", Family: "Scal", Classes: vkAll, Ref: ik.RefScalUnitary[float32],
@@ -65,7 +65,7 @@ var vkOps = []*vkOp{
 	{Name: "ScalIncTo", Family: "Scal", Classes: vkAll, Ref: ik.RefScalIncTo[float32],
 		Shape: ik.Shape{HasX: true, HasDst: true, Inc: true, Alpha: true, AliasX: true},
 		Call:  func(a *vkArgs) { ScalIncTo(a.Dst, a.IncD, a.Alpha, a.X, a.N, a.IncX) }},
-	{Name: "Sum", Family: "Norm", Classes: vkNoSpec, Red: ik.RedSum,
+	{Name: "Sum", Family: "Norm", Classes: vkRed, Red: ik.RedSum,
 		Shape: ik.Shape{HasX: true},
 		Call:  func(a *vkArgs) { a.Ret = vkRet(Sum(a.X)) }},
 	{Name: "L2NormUnitary", Family: "Norm", Classes: vkAll, Red: ik.RedL2,
